@@ -18,7 +18,9 @@ const NS: i128 = 1_000_000_000;
 
 #[derive(Clone, Copy, PartialEq)]
 enum Region {
-    InRange,
+    /// every timestamp/correction pair
+    Any,
+    /// corrected time outside [0, 2^48 s): panicked before 0b63ecb, now wraps modulo 2^48 s
     OutOfRange,
 }
 
@@ -35,42 +37,41 @@ fn corr(region: Region, corr_bits: u32) {
     // Exact corrected time in nanoseconds; the correction field counts 2^-16 ns (floor to whole ns).
     // The oracle is stated with multiplications only (result * 10^9 + nanos == total): a second
     // divider circuit next to the one in the code under test makes the SAT problem intractable.
-    let total: i128 = (s as i128) * NS + n as i128 + ((c >> 16) as i128);
-    let in_range = total >= 0 && total < (1i128 << 48) * NS;
-    match region {
-        Region::InRange => kani::assume(in_range),
-        Region::OutOfRange => kani::assume(!in_range),
+    if region == Region::OutOfRange {
+        let total: i128 = (s as i128) * NS + n as i128 + ((c >> 16) as i128);
+        kani::assume(!(total >= 0 && total < (1i128 << 48) * NS));
     }
     let r = sh::add_correction_hook(ts, TimeInterval(c));
     // (reaching this point = no panic)
     assert!(r.nanos() < 1_000_000_000, "nanoseconds normalised");
     assert!(r.seconds() < (1u64 << 48), "seconds fit the 48-bit wire field");
-    // result - input == correction, stated on the (small) differences: |correction| < 2^47 ns < 140738 s
-    let ds = r.seconds() as i64 - s as i64;
+    // result - input == correction modulo 2^48 s, stated on the (small) differences:
+    // |correction| < 2^47 ns < 140738 s; the seconds difference is taken in 48-bit two's complement
+    let ds = ((r.seconds().wrapping_sub(s) << 16) as i64) >> 16;
     let dn = r.nanos() as i64 - n as i64;
-    assert!(ds >= -140_739 && ds <= 140_739, "seconds move by at most the correction");
-    assert!(ds * 1_000_000_000 + dn == (c >> 16), "corrected timestamp - timestamp = correction (whole nanoseconds, rounded down)");
+    assert!(ds >= -140_739 && ds <= 140_739, "seconds move by at most the correction (modulo 2^48)");
+    assert!(ds * 1_000_000_000 + dn == (c >> 16), "corrected timestamp - timestamp = correction (whole nanoseconds, rounded down; seconds modulo 2^48)");
+    // (covers satisfiable in both regions, placed where both harnesses reach them)
+    kani::cover!(s == 0 && c < 0 && r.seconds() == (1u64 << 48) - 1, "below the epoch: wraps to the top of the 48-bit range");
     kani::cover!(c < 0 && r.nanos() > n, "negative correction borrows from the seconds");
-    kani::cover!(c > 0 && r.seconds() > s + 1, "correction of more than a second");
-    kani::cover!(s == 0 && c < 0 && r.seconds() == 0, "at the epoch, sub-second negative correction that stays in range");
 }
 
 #[kani::proof]
 fn c44_corr() {
-    corr(Region::InRange, 32);
+    corr(Region::Any, 32);
 }
 
 #[kani::proof]
 fn c44_corr_40() {
-    corr(Region::InRange, 40);
+    corr(Region::Any, 40);
 }
 
 
 
-/// Expected to FAIL (known-finding candidate): corrected seconds outside [0, 2^48) hit the
-/// `expect` on `Timestamp::new` in `add_correction` (remote-triggerable panic).
+/// Regression harness for the defect fixed in 0b63ecb (corrected seconds outside [0, 2^48) hit the
+/// `expect` on `Timestamp::new`, a remote-triggerable panic): no panic, result wraps modulo 2^48 s.
 #[kani::proof]
-fn c44_corr_kf_seconds_out_of_range() {
+fn c44_corr_out_of_range() {
     corr(Region::OutOfRange, 32);
 }
 
